@@ -25,6 +25,17 @@ def run_deductive(rep, pid):
 
 def finish_notes(rep, pid):
     rep.assume(*GENERAL_ASSUMPTIONS)
+    if not rep.explanation:
+        from props.registry import CHECKS
+        c = CHECKS.get(pid, {})
+        n_ob = len(rep.obligations)
+        n_ok = sum(1 for o in rep.obligations if o.status == 'proved')
+        fns = ', '.join('%s [%s]' % (f['function'].split('::')[1], f['tier']) for f in rep.functions) or 'none'
+        rep.explanation = (
+            '%s  This run: deductive tier - %d obligations generated from /repo\'s current source, %d discharged '
+            '(functions under contract: %s); bounded tier - %d contract evaluations over %d scope(s), labelled bounded and '
+            'not counted as proved.' % (c.get('text', ''), n_ob, n_ok, fns,
+                                        sum(s.evaluations for s in rep.scopes), len(rep.scopes)))
     ex = rt._installed.get('ex')
     if ex:
         rep.notes['pyx_extraction'] = {k: {'dropped_lines': len(v.dropped)} for k, v in ex.items()}
